@@ -12,7 +12,8 @@ import extract as X
 import rustlex as L
 
 VERIF = X.VERIF
-WORK = os.environ.get("VERIF_WORK", os.path.join(VERIF, ".work"))
+# one scratch directory per process: concurrent checks (several properties share units) must not rewrite each other's files
+WORK = os.path.join(os.environ.get("VERIF_WORK", os.path.join(VERIF, ".work")), "run-%d" % os.getpid())
 VERUS = os.environ.get("VERUS", "verus")
 
 KIND = [
